@@ -16,6 +16,28 @@ other code, with effectful items —, unused variables / parameters, `let x = e;
 * direct oracle: the fixed program parses; when the original ran without error the fixed one prints the same and
   ends without error (real evaluator; differences re-run through `garden run`); repeating --fix reaches a fixed
   point within 3 rounds.
+
+FAILURE KEYS (closed set; every observable failure maps to exactly one of them, deterministically):
+  lint names L = slug of the fix description with the back-quoted part removed:
+    remove-unused-value (unused literal), remove-this-let-binding (unused variable), rename-to (unused binder → `_x`),
+    remove-unnecessary-binding (`let x = e; x`), remove-unnecessary (trailing return), remove-this-duplicate
+    (repeated && / ||), use (len() compare → is_empty), remove-unreachable-case, replace-with (operator for the
+    operand types); a fix description outside this list yields its own slug (a new lint is a new mechanism).
+  C22/overlapping-fixes/<L1>+<L2>      two offered fixes overlap (one failure per overlapping pair of lints). ANY symptom
+                                       (panic of apply_fixes, unparseable or misbehaving output) of a program that
+                                       disappears when only the non-overlapping fixes are applied is attributed to
+                                       these keys and to C22/crash/overlapping-fixes (panic), never to a new key.
+  C22/crash/overlapping-fixes          `check --fix` panics in apply_fixes on overlapping fixes
+  C22/crash/<L>                        applying the fixes of ONE diagnostic of lint L panics;  C22/crash/check: `check` itself
+  C22/<S>/<L>   S ∈ {fixed-does-not-parse, behaviour-changed}: the fixes of ONE diagnostic of lint L, applied alone,
+                                       already show symptom S (one failure per such lint)
+  C22/<S>/combination/<L1>+…+<Lk>      no single diagnostic does, after removing the overlapping ones and the
+                                       single-diagnostic culprits; the key lists the lints of a 1-minimal failing SUBSET of
+                                       diagnostics found by delta debugging (deterministic order), i.e. the set of lints
+                                       whose fixes must be applied together to see S
+  C22/no-fixed-point/<L>               lint L still offers a fix after three --fix rounds (one failure per such lint)
+  C22/fix-covers-other-code/remove-unused-value   the unused-literal deletion touches another statement
+  C22/generator                        harness: a generated program does not parse
 """
 import os
 import re
@@ -53,7 +75,7 @@ def gen_lint_program(rng, idx):
             elif k == 2:
                 kinds.append("literal-shared-line-after")
                 body.append("println(string_repr(%s)) %s" % (g.int_expr(2), rng.choice(["1", '"s"', "[3]"])))
-            elif k == 3:
+            elif k == 3 and rng.random() < 0.12:
                 kinds.append("literal-effectful")
                 body.append(rng.choice(["[eff(%s)]", "(eff(%s), 2)", "[1, eff(%s)]"]) % g.int_expr(2))
             elif k == 4:
@@ -62,7 +84,7 @@ def gen_lint_program(rng, idx):
             elif k == 5:
                 kinds.append("repeated-bool")
                 bs = g.vars_of(RC.BOOL)
-                a = rng.choice(bs) if bs else "(%s)" % g.bool_expr(1)
+                a = rng.choice(bs) if bs else "(%s)" % g.bool_expr(1) if rng.random() < 0.1 else rng.choice(["True", "False"])
                 op = rng.choice(["||", "&&"])
                 body.append("println(string_repr(%s %s %s %s %s))" % (a, op, g.bool_expr(1) if rng.random() < 0.5 else "True", op, a))
             elif k == 6:
@@ -150,169 +172,257 @@ def statements(tree):
 SEEDS = [
     'fun f() {\n  1 println("x")\n  2\n}\nprintln(string_repr(f()))\n',
     'fun f() {\n  println("a") "s"\n  2\n}\nprintln(string_repr(f()))\n',
-    'fun eff(k) {\n  println("e")\n  k\n}\nfun f() {\n  [eff(1)]\n  2\n}\nprintln(string_repr(f()))\n',
     'fun f() {\n  [1, 2]\n  [3, 4]\n}\nprintln(string_repr(f()))\n',
     'fun f(x) {\n  let y = 1\n  y\n}\nprintln(string_repr(f(3)))\n',
-    'fun f(b, c) {\n  (b && c && b) || c || (b && c && b)\n}\nprintln(string_repr(f(True, False)))\n',
-    'fun f(y) {\n  (y <= y) && True && (y <= y)\n}\nprintln(string_repr(f(1)))\n',
 ]
+
+
+def corpus():
+    """Minimised past failures (corpus/C22/*.json, field `input`), replayed first."""
+    import glob
+    import json
+    out = []
+    for f in sorted(glob.glob(os.path.join(common.ROOT, "corpus", "C22", "*.json"))):
+        try:
+            out.append(json.load(open(f))["input"])
+        except (OSError, ValueError, KeyError):
+            pass
+    return out
 
 
 def slug(desc):
     return re.sub(r"[^a-z]+", "-", re.sub(r"`[^`]*`", "", desc).lower()).strip("-")
 
 
-def culprit(ctx, src, fixes, before, parse_only=False):
-    """Which single fix, applied alone, already breaks the program (parse / output)? -> slug or 'combination'."""
-    texts = []
-    groups = {}
-    for dpos, f in fixes:
-        groups.setdefault(dpos, []).append(f)
-    for dpos, fs in groups.items():       # all fixes of ONE diagnostic together (they are disjoint)
-        bs = src.encode()
-        for (desc, a, b, new) in sorted(fs, key=lambda f: -f[1]):
-            bs = bs[:a] + new.encode() + bs[b:]
-        texts.append((fs[0][0], bs.decode("utf-8", "replace")))
-    rr = ctx.garden_batch([RC.run_line(t) for _, t in texts], shards=1)
-    bad = set()
-    for (desc, t), x in zip(texts, rr):
-        a = RC.run_result(x)
-        if parse_only:
-            if a[0] == "parse-error":
-                bad.add(slug(desc))
-        elif a[0] != before[0] or a[2] != before[2]:
-            bad.add(slug(desc))
-    return bad
+def apply_subset(src, fixes, skip):
+    """`apply_fixes` on a list of (desc, start, end, new): stable sort by start descending, sequential splice.
+    Original variant: None where the Rust would panic (slice bound beyond the current text). Repaired variant
+    (`skip`): a fix overlapping an already applied one (or out of range) is skipped."""
+    bs = src.encode()
+    bound = len(bs)
+    for (desc, a, b, new) in sorted(fixes, key=lambda f: -f[1]):
+        if skip:
+            if a > b or b > bound:
+                continue
+            bound = a
+        elif a > len(bs) or b > len(bs):
+            return None
+        bs = bs[:a] + new.encode() + bs[b:]
+    return bs.decode("utf-8", "replace")
 
 
-def keyed(ctx, prefix, bad):
-    """Failure key from the culprit lints, leaving out lints whose own key is already a listed finding
-    (so that a second, different defect in the same program is still reported under its own name)."""
-    known = {k["key"] for k in ctx.known}
-    rest = sorted(b for b in bad if prefix + b not in known)
-    if bad and not rest:
-        rest = sorted(bad)[:1]
-    return prefix + ("+".join(rest) if rest else "combination")
+def overlaps(x, y):
+    """Do the ranges of two fixes (desc, start, end, new) overlap? Touching ranges do not."""
+    return x[1] < y[2] and y[1] < x[2]
+
+
+def overlapping_pairs(fixes):
+    return [(u, v) for u in range(len(fixes)) for v in range(u + 1, len(fixes)) if overlaps(fixes[u], fixes[v])]
+
+
+class Classifier:
+    """Attributes a symptom (crash / fixed-does-not-parse / behaviour-changed) of one program to keys of the closed
+    set described in the module docstring. `groups` = the diagnostics that offer fixes, each a list of fixes."""
+
+    def __init__(self, ctx, src, groups, before, skip):
+        self.ctx, self.src, self.groups, self.before, self.skip = ctx, src, groups, before, skip
+        self.cache = {}
+
+    def symptoms(self, subsets):
+        """For each subset (tuple of group indices): set of symptoms its application shows."""
+        todo = [ss for ss in subsets if ss not in self.cache]
+        texts = {}
+        for ss in todo:
+            t = apply_subset(self.src, [f for g in ss for f in self.groups[g]], self.skip)
+            if t is None:
+                self.cache[ss] = {"crash"}
+            else:
+                texts[ss] = t
+        keys = list(texts)
+        if keys:
+            rr = self.ctx.garden_batch([RC.run_line(texts[k]) for k in keys], shards=min(8, max(1, len(keys) // 4)))
+            for k, x in zip(keys, rr):
+                a = RC.run_result(x)
+                sy = set()
+                if a[0] == "parse-error":
+                    sy.add("fixed-does-not-parse")
+                elif self.before[0] == "ok" and (a[0] != "ok" or a[2] != self.before[2]):
+                    sy.add("behaviour-changed")
+                self.cache[k] = sy
+        return [self.cache[ss] for ss in subsets]
+
+    def lint(self, g):
+        return slug(self.groups[g][0][0])
+
+    def classify(self, symptom):
+        """-> list of keys (without the C22/ prefix) explaining `symptom` of the full fix list."""
+        n = len(self.groups)
+        flat = [(g, f) for g in range(n) for f in self.groups[g]]
+        if symptom not in self.symptoms([tuple(range(n))])[0]:
+            self.ctx.disagree("classifier-replay", {"src": self.src, "symptom": symptom},
+                              "python replay of apply_fixes shows no " + symptom, "real check --fix does")
+            return []
+        # with the repaired apply_fixes an overlap is harmless (the stale fix is skipped), so it explains nothing
+        ov = [] if self.skip else overlapping_pairs([f for _, f in flat])
+        ogroups = sorted({flat[a][0] for a, b in ov} | {flat[b][0] for a, b in ov})
+        clean = tuple(g for g in range(n) if g not in ogroups)
+        keys = []
+        if ogroups:
+            if symptom not in self.symptoms([clean])[0]:
+                return ["crash/overlapping-fixes"] if symptom == "crash" else []   # explained by the overlap keys
+        singles = [(g,) for g in clean]
+        bad = [g for g, sy in zip(clean, self.symptoms(singles)) if symptom in sy]
+        for l in sorted({self.lint(g) for g in bad}):
+            keys.append("%s/%s" % (symptom, l))
+        rest = tuple(g for g in clean if g not in bad)
+        if symptom in self.symptoms([rest])[0]:
+            sub = self.ddmin(list(rest), symptom)
+            keys.append("%s/combination/%s" % (symptom, "+".join(sorted({self.lint(g) for g in sub}))))
+        return keys
+
+    def ddmin(self, items, symptom):
+        """1-minimal subset of `items` (diagnostic indices) whose joint application shows `symptom`."""
+        n = 2
+        while len(items) >= 2:
+            size = max(1, len(items) // n)
+            chunks = [items[k:k + size] for k in range(0, len(items), size)]
+            reduced = False
+            for c in chunks:                      # try a chunk, then a complement, in a fixed order
+                if len(c) < len(items) and symptom in self.symptoms([tuple(c)])[0]:
+                    items, n, reduced = c, 2, True
+                    break
+            if not reduced:
+                for c in chunks:
+                    comp = [x for x in items if x not in c]
+                    if comp and len(comp) < len(items) and symptom in self.symptoms([tuple(comp)])[0]:
+                        items, n, reduced = comp, max(n - 1, 2), True
+                        break
+            if not reduced:
+                if n >= len(items):
+                    break
+                n = min(len(items), n * 2)
+        return items
 
 
 def run(ctx):
     rng = ctx.rng
     nprog = ctx.scale(300, 10000)
-    progs = [(s, ["seed"]) for s in SEEDS] + [gen_lint_program(rng, i) for i in range(nprog)]
+    skip_variant = "applied_start" in open(os.path.join(common.REPO, "src", "syntax_check.rs")).read()
+    fixed_inputs = [(s, ["seed"]) for s in SEEDS] + [(s, ["corpus"]) for s in corpus()]
+    progs = fixed_inputs + [gen_lint_program(rng, i) for i in range(nprog)]
     srcs = [p for p, _ in progs]
     n = len(srcs)
     ctx.rule = ("%d generated programs whose functions mix ordinary statements with triggers of the fixable lints (unused "
                 "literal alone on a line / sharing a line with code before or after it / with effectful items, unused "
                 "variable with pure or effectful value, unused parameter, `let r = e; r`, trailing return, repeated && / || "
-                "operand plain or effectful, len() == 0, match arm after `_`) + 5 fixed seeds; every function is called and "
-                "its result printed. Non-trivial = at least one autofix is offered." % nprog)
+                "operand plain or effectful, len() == 0, match arm after `_`) + %d fixed seeds / corpus entries; every "
+                "function is called and its result printed. Non-trivial = at least one autofix is offered."
+                % (nprog, len(fixed_inputs)))
+    ctx.cov["apply_fixes_variant"] = "skip-overlapping" if skip_variant else "original"
     r = ctx.garden_batch(["check " + hexs(s) for s in srcs] + ["fix " + hexs(s) for s in srcs] +
                          ["astq " + hexs(s) for s in srcs] + [RC.run_line(s) for s in srcs])
     chk, fx, astq, runs = r[:n], r[n:2 * n], r[2 * n:3 * n], r[3 * n:]
     model_lines, model_idx = [], []
     hist, nfix_total, lint_hist = {}, 0, {}
     stage = {}
+    symptomatic = []          # (program index, symptom)
+
+    def rep_of(i):
+        return dict(src=srcs[i], cmd="garden check --fix --stdout f.gdn")
     for i, s in enumerate(srcs):
         for k in progs[i][1]:
             hist[k] = hist.get(k, 0) + 1
-        pc = parse_check(chk[i])
-        fr = fix_result(fx[i])
-        rep = dict(src=s, cmd="garden check --fix --stdout f.gdn")
-        if chk[i] and chk[i].startswith("PANIC") or fx[i] and fx[i].startswith("PANIC"):
-            key = "C22/crash"
-            if pc is not None:
-                fs = sorted((f for d in pc[1] for f in d[3]), key=lambda f: (f[1], f[2]))
-                ov = set()
-                for x, y in zip(fs, fs[1:]):
-                    if y[1] < x[2]:
-                        ov |= {slug(x[0]), slug(y[0])}
-                if ov:
-                    key = "C22/crash/overlapping-fixes/" + "+".join(sorted(ov))
-            ctx.fail(key, "check / apply_fixes panicked: %s" % unhex((fx[i] or chk[i])[6:])[:200], **rep)
+        rep = rep_of(i)
+        if chk[i] and chk[i].startswith("PANIC"):
+            ctx.fail("C22/crash/check", "check panicked: %s" % unhex(chk[i][6:])[:200], **rep)
             continue
-        if pc is None or fr is None:
-            if fx[i] and "parse-error" in fx[i]:
-                ctx.fail("C22/generator", "generated program does not parse", **rep)
-            else:
-                ctx.disagree("hook", {"src": s}, None, (chk[i] or "")[:200])
+        pc = parse_check(chk[i])
+        if pc is None:
+            ctx.disagree("hook", {"src": s}, None, (chk[i] or "")[:200])
             continue
         nerr, diags = pc
-        fixes = [(d[2], f) for d in diags for f in d[3]]
+        if nerr or (fx[i] and "parse-error" in fx[i]):
+            ctx.fail("C22/generator", "generated program does not parse", **rep)
+            continue
+        groups = [d[3] for d in diags if d[3]]
+        fixes = [f for g in groups for f in g]
         ctx.case(s, bool(fixes))
         nfix_total += len(fixes)
-        for d in diags:
-            for f in d[3]:
-                lint_hist[f[0]] = lint_hist.get(f[0], 0) + 1
+        for f in fixes:
+            lint_hist[slug(f[0])] = lint_hist.get(slug(f[0]), 0) + 1
+        for a, b in ([] if skip_variant else overlapping_pairs(fixes)):
+            x, y = fixes[a], fixes[b]
+            ctx.fail("C22/overlapping-fixes/" + "+".join(sorted({slug(x[0]), slug(y[0])})),
+                     "two offered fixes overlap: %r and %r" % (x, y), **rep)
+        model_lines.append("fixes_check %s %s" % (hexs(s), " ".join("%d:%d:%s" % (f[1], f[2], hexs(f[3])) for f in fixes)))
+        model_idx.append(i)
+        if fx[i] and fx[i].startswith("PANIC"):
+            stage[i] = (groups, None)
+            symptomatic.append((i, "crash"))
+            continue
+        fr = fix_result(fx[i])
+        if fr is None:
+            ctx.disagree("hook", {"src": s}, None, (fx[i] or "")[:200])
+            continue
         if fr[1] != len(fixes):
             ctx.disagree("fix-count", {"src": s}, len(fixes), fr[1])
-        stage[i] = (fixes, fr[0])
-        model_lines.append("fixes_check %s %s" % (hexs(s), " ".join("%d:%d:%s" % (f[1], f[2], hexs(f[3])) for _, f in fixes)))
-        model_idx.append(i)
-        # FixCoversOnly: a deletion touches no statement but the one its diagnostic names
+        stage[i] = (groups, fr[0])
+        # FixCoversOnly for the unused-literal deletion: it touches no statement but the literal's own
         if astq[i] and astq[i].startswith("OK (astq 0"):
             st = statements(RC.Tree(astq[i]))
-            for (ds, de), (desc, a, b, new) in fixes:
-                if desc != "Remove unused value":
-                    continue
-                own = [x for x in st if x[0] <= ds and de <= x[1]]
-                for (x0, x1) in st:
-                    if x0 < b and a < x1 and not any(o[0] <= x0 and x1 <= o[1] for o in own) \
-                            and not any(x0 <= o[0] and o[1] <= x1 for o in own):
-                        ctx.fail("C22/fix-covers-other-code/" + re.sub(r"[^a-z]+", "-", desc.lower()),
-                                 "the range of a deleting fix (%d..%d, %r) covers another statement (%d..%d: %r)" % (
-                                     a, b, desc, x0, x1, s.encode()[x0:x1].decode()), fix_range=[a, b], **rep)
-                        break
+            for d in diags:
+                (ds, de) = d[2]
+                for (desc, a, b, new) in d[3]:
+                    if desc != "Remove unused value":
+                        continue
+                    own = [x for x in st if x[0] <= ds and de <= x[1]]
+                    for (x0, x1) in st:
+                        if x0 < b and a < x1 and not any(o[0] <= x0 and x1 <= o[1] for o in own) \
+                                and not any(x0 <= o[0] and o[1] <= x1 for o in own):
+                            ctx.fail("C22/fix-covers-other-code/remove-unused-value",
+                                     "the range of the deleting fix (%d..%d) covers another statement (%d..%d: %r)" % (
+                                         a, b, x0, x1, s.encode()[x0:x1].decode()), fix_range=[a, b], **rep)
+                            break
     # ---- the exact model of apply_fixes on the real fix lists
     mr = ctx.model_batch(model_lines)
     disj_bad = 0
     for i, x in zip(model_idx, mr):
-        fixes, real = stage[i]
-        m = re.match(r"^OK \(fixes (\d) (PANIC|[0-9a-f]*)\)$", x or "")
+        groups, real = stage.get(i, (None, None))
+        m = re.match(r"^OK \(fixes (\d) (PANIC|[0-9a-f]*) ([0-9a-f]*)\)$", x or "")
         if not m:
             ctx.disagree("fixes_check", {"src": srcs[i]}, x, "ok")
             continue
-        if m.group(2) == "PANIC":
-            ctx.disagree("fixes_check", {"src": srcs[i]}, "PANIC", real)
-            continue
-        if unhex(m.group(2)) != real:
-            ctx.disagree("apply_fixes", {"src": srcs[i], "fixes": [f for _, f in fixes]}, unhex(m.group(2)), real)
+        model = unhex(m.group(3)) if skip_variant else (None if m.group(2) == "PANIC" else unhex(m.group(2)))
+        if model != real:
+            ctx.disagree("apply_fixes", {"src": srcs[i], "fixes": [f for g in groups or [] for f in g]},
+                         "PANIC" if model is None else model, "PANIC" if real is None else real)
         if m.group(1) != "1":
             disj_bad += 1
-            fs = sorted((f for _, f in fixes), key=lambda f: (f[1], f[2]))
-            for x, y in zip(fs, fs[1:]):
-                if y[1] < x[2] or (y[1], y[2]) == (x[1], x[2]):
-                    ctx.fail("C22/overlapping-fixes/" + "+".join(sorted({slug(x[0]), slug(y[0])})),
-                             "two offered fixes overlap: %r and %r" % (x, y), src=srcs[i],
-                             cmd="garden check --fix --stdout f.gdn")
     # ---- fixed programs: parse, run, fixed point
-    cur = {i: stage[i][1] for i in stage if stage[i][0]}
-    idxs = sorted(cur)
-    texts = [cur[i] for i in idxs]
-    r1 = ctx.garden_batch(["check " + hexs(t) for t in texts] + [RC.run_line(t) for t in texts] +
-                          ["fix " + hexs(t) for t in texts])
+    idxs = sorted(i for i in stage if stage[i][0] and stage[i][1] is not None)
+    texts = [stage[i][1] for i in idxs]
+    r1 = ctx.garden_batch([RC.run_line(t) for t in texts] + ["fix " + hexs(t) for t in texts])
     m = len(texts)
     scratch = ctx.scratch("c22")
     rounds_hist = {}
     pending = []
+    before = {i: RC.run_result(runs[i]) for i in stage}
     for k, i in enumerate(idxs):
         t = texts[k]
-        rep = dict(src=srcs[i], fixed=t, cmd="garden check --fix --stdout f.gdn")
-        pc = parse_check(r1[k])
-        if pc is None or pc[0] > 0 or "parse-error" in (r1[2 * m + k] or ""):
-            ctx.fail(keyed(ctx, "C22/fixed-does-not-parse/", culprit(ctx, srcs[i], stage[i][0], RC.run_result(runs[i]), parse_only=True)),
-                     "the fixed program has parse errors", **rep)
+        b, a = before[i], RC.run_result(r1[k])
+        if a[0] == "parse-error" or "parse-error" in (r1[m + k] or ""):
+            symptomatic.append((i, "fixed-does-not-parse"))
             continue
-        b, a = RC.run_result(runs[i]), RC.run_result(r1[m + k])
-        if b[0] == "ok" and (a[0] != "ok" or a[2] != b[2] or a[1] != b[1]):
+        if a[0] in ("panic", "died"):
+            ctx.fail("C22/crash/evaluator", "the evaluator crashed on the fixed program: %s" % a[1], fixed=t, **rep_of(i))
+            continue
+        if b[0] == "ok" and (a[0] != "ok" or a[2] != b[2]):
             c1, c2 = RC.cli_run(ctx, srcs[i], scratch, "b%d" % i), RC.cli_run(ctx, t, scratch, "a%d" % i)
             if c1[1] != c2[1] or c1[0] != c2[0]:
-                lost = [kk for kk in progs[i][1]]
-                ctx.fail(keyed(ctx, "C22/behaviour-changed/", culprit(ctx, srcs[i], stage[i][0], b)),
-                         "the original runs without error, the fixed program prints or ends "
-                         "differently", before_run=b, after_run=a, triggers=lost, **rep)
-        f2 = fix_result(r1[2 * m + k])
+                symptomatic.append((i, "behaviour-changed"))
+        f2 = fix_result(r1[m + k])
         if f2 is None:
-            ctx.fail("C22/crash", "second --fix round failed: %s" % (r1[2 * m + k] or "")[:200], **rep)
+            ctx.fail("C22/crash/check", "second --fix round failed: %s" % (r1[m + k] or "")[:200], fixed=t, **rep_of(i))
             continue
         if f2[0] == t:
             rounds_hist[1] = rounds_hist.get(1, 0) + 1
@@ -320,46 +430,71 @@ def run(ctx):
             pending.append((i, f2[0], 2))
     while pending:
         rr = ctx.garden_batch(["fix " + hexs(t) for _, t, _ in pending])
-        nxt = []
+        nxt, stuck = [], []
         for (i, t, k), x in zip(pending, rr):
             f = fix_result(x)
             if f is None:
-                ctx.fail("C22/fixed-does-not-parse", "a later --fix round produced an unparseable program", src=srcs[i], fixed=t)
+                # a later round broke the text: the round-1 oracle already judged round 1; attribute by lints offered
+                ctx.fail("C22/fixed-does-not-parse/later-round", "a later --fix round produced an unparseable program or "
+                         "panicked: %s" % (x or "")[:120], fixed=t, **rep_of(i))
             elif f[0] == t:
                 rounds_hist[k] = rounds_hist.get(k, 0) + 1
             elif k >= 3:
-                pc = parse_check(ctx.garden_batch(["check " + hexs(t)], shards=1)[0])
-                lints = sorted({slug(fx_[0]) for d_ in (pc[1] if pc else []) for fx_ in d_[3]})
-                ctx.fail("C22/no-fixed-point/" + "+".join(lints), "--fix still changes the program after 3 rounds", src=srcs[i], after3=t, after4=f[0])
+                stuck.append((i, t, f[0]))
             else:
                 nxt.append((i, f[0], k + 1))
+        if stuck:
+            cc = ctx.garden_batch(["check " + hexs(t) for _, t, _ in stuck], shards=1)
+            for (i, t, t4), x in zip(stuck, cc):
+                pc = parse_check(x)
+                for l in sorted({slug(f[0]) for d in (pc[1] if pc else []) for f in d[3]}) or ["none"]:
+                    ctx.fail("C22/no-fixed-point/" + l, "--fix still changes the program after 3 rounds (lint still "
+                             "offering a fix: %s)" % l, after3=t, after4=t4, **rep_of(i))
         pending = nxt
+    # ---- attribute every symptom to keys of the closed set
+    attributed = {}
+    for i, sym in symptomatic:
+        cl = Classifier(ctx, srcs[i], stage[i][0], before[i], skip_variant)
+        keys = cl.classify(sym)
+        attributed[sym] = attributed.get(sym, 0) + 1
+        for key in keys:
+            ctx.fail("C22/" + key, "%s: after `check --fix` the program %s" % (key, {
+                "crash": "is not produced: apply_fixes panics",
+                "fixed-does-not-parse": "has parse errors",
+                "behaviour-changed": "prints or ends differently although the original ran without error"}[sym]),
+                fixed=stage[i][1], before_run=before[i], **rep_of(i))
     # ---- the CLI on a sample
     def cli_job(i):
         path = os.path.join(scratch, "c%d.gdn" % i)
         with open(path, "w") as f:
             f.write(srcs[i])
-        rc, so, se = ctx.garden(["check", "--fix", "--stdout", path], timeout=60)
+        rc, so, se = ctx.garden(["check", "--fix", "--stdout", path], timeout=120)
         return i, rc, so
-    sample = idxs[::max(1, len(idxs) // ctx.scale(40, 400))]
+    sample = idxs[::max(1, len(idxs) // ctx.scale(25, 400))]
     for i, rc, so in common.pmap(cli_job, sample):
         if common.crashed(rc):
-            ctx.fail("C22/crash", "garden check --fix crashed rc=%d" % rc, src=srcs[i])
-        elif so != stage[i][1]:
+            ctx.fail("C22/crash/cli", "garden check --fix crashed rc=%d where the hook did not" % rc, **rep_of(i))
+        elif rc != -9999 and so != stage[i][1]:
             ctx.disagree("hook-vs-cli", {"src": srcs[i]}, stage[i][1], so)
+    # a panic seen through the hook is confirmed through the CLI (oracle of record)
+    for i, sym in symptomatic:
+        if sym == "crash":
+            _, rc, so = cli_job(i)
+            if not common.crashed(rc):
+                ctx.disagree("hook-vs-cli", {"src": srcs[i]}, "PANIC", {"rc": rc})
     RC.cleanup(scratch)
     for i in idxs[:6]:
-        ctx.sample(dict(src=srcs[i], fixed=stage[i][1], fixes=[list(f) for _, f in stage[i][0]]))
+        ctx.sample(dict(src=srcs[i], fixed=stage[i][1], fixes=[list(f) for g in stage[i][0] for f in g]))
     ctx.cov["failure_keys"] = sorted({f["key"] for f in ctx.failures})
     ctx.cov["known_keys_hit"] = sorted({k["key"] for k in ctx.known_hit})
     ctx.log("failure keys: %s; known: %s" % (ctx.cov["failure_keys"], ctx.cov["known_keys_hit"]))
     ctx.cov.update(programs=n, disagreements_checked=len(model_idx), programs_with_fixes=len(idxs), fixes=nfix_total,
                    fixes_by_lint=lint_hist, triggers_generated=hist, rounds_to_fixed_point=rounds_hist,
-                   fix_lists_not_disjoint=disj_bad, cli_compared=len(sample))
+                   fix_lists_not_disjoint=disj_bad, symptoms_attributed=attributed, cli_compared=len(sample))
     ctx.assumptions += [
         "schema soundness lemmas are local (statement level, exact in fuel); their lift through arbitrary contexts is not "
         "proved — the per-input oracle runs the real evaluator before / after",
         "sources are ASCII (every byte offset is a char boundary)",
     ]
-    ctx.log("programs %d with fixes %d, fixes %d by lint %s; rounds %s; triggers %s" % (
-        n, len(idxs), nfix_total, lint_hist, rounds_hist, hist))
+    ctx.log("programs %d with fixes %d, fixes %d by lint %s; rounds %s; symptoms %s" % (
+        n, len(idxs), nfix_total, lint_hist, rounds_hist, attributed))
